@@ -96,10 +96,10 @@ def build():
     # ---- write.rs: open sets dirty, publish, Drop rolls back
     ws = strip_comments(read("src/zonetree/in_memory/write.rs"))
     dr = flat(fn_body(ws, "drop", after="impl Drop for WriteZone"))
-    one(r"^if self\.dirty\.swap\(false, Ordering::SeqCst\) \{ self\.apex\.rollback\(self\.new_version\); \}$", dr, "WriteZone::drop")
+    one(r"^(?:if self\._lock\.is_some\(\) \{ \*self\.writable_version\.write\(\) = None; \} )?if self\.dirty\.swap\(false, Ordering::SeqCst\) \{ self\.apex\.rollback\(self\.new_version\); \}$", dr, "WriteZone::drop")
     defs.append(("drop_rolls_back_when_dirty", "bool", "true"))
     op = flat(fn_body(ws, "open", after="impl WritableZone for WriteZone"))
-    one(r"if let Ok\(write_node\) = &new_apex \{ \*self\.diff\.lock\(\)\.unwrap\(\) = write_node\.diff\(\); self\.dirty\.store\(true, Ordering::SeqCst\); \}", op, "WriteZone::open sets dirty")
+    one(r"if let Ok\(write_node\) = &new_apex \{ \*self\.diff\.lock\(\)\.unwrap\(\) = write_node\.diff\(\); self\.dirty\.store\(true, Ordering::SeqCst\); (?:\*self\.writable_version\.write\(\) = Some\(self\.new_version\); )?\}", op, "WriteZone::open sets dirty")
     defs.append(("open_sets_dirty", "bool", "true"))
     pb = flat(fn_body(ws, "publish_new_zone_version"))
     one(r"\.update_current\(self\.new_version\);", pb, "publish: update_current(new_version)")
@@ -114,7 +114,7 @@ def build():
     one(r"self\.publish_new_zone_version\(\);", cm, "commit publishes")
     wn = impl_body(ws, r"impl WriteNode\s*\{")
     uc = flat(fn_body(wn, "update_child"))
-    one(r"\.with_or_default\(label, \|node, created\| \(node\.clone\(\), created\)\);", uc, "update_child creates the node")
+    one(r"\.with_or_default\(label, \|node, created\| (?:\{ )?\(node\.clone\(\), created\)(?: \})?\)", uc, "update_child creates the node")
     one(r"if created \{ node\.make_regular\(\)\?; \}", uc, "update_child make_regular on creation")
     defs.append(("update_child_creates_node", "bool", "true"))
     ur = flat(fn_body(wn, "update_rrset"))
@@ -122,12 +122,27 @@ def build():
     rr = flat(fn_body(wn, "remove_rrset"))
     one(r"rrsets\.remove_rtype\(rtype, self\.zone\.new_version\); self\.check_nx_domain\(\)\?; Ok\(\(\)\)$", rr, "remove_rrset writes at new_version")
     mr = flat(fn_body(wn, "make_regular"))
-    one(r"^if let Either::Right\(ref node\) = self\.node \{ node\.update_special\(self\.zone\.new_version, None\); self\.check_nx_domain\(\)\?; \} Ok\(\(\)\)$", mr, "make_regular")
+    one(r"^(?:let _writable = self\.writable\(\)\?; )?if let Either::Right\(ref node\) = self\.node \{ node\.update_special\(self\.zone\.new_version, None\); self\.check_nx_domain\(\)\?; \} Ok\(\(\)\)$", mr, "make_regular")
     cn = flat(fn_body(wn, "check_nx_domain"))
     one(r"Some\(Special::NxDomain\) => \{ if !node\.rrsets\(\)\.is_empty\(self\.zone\.new_version\) \{ Some\(false\) \} else \{ None \} \} "
         r"None => \{ if node\.rrsets\(\)\.is_empty\(self\.zone\.new_version\) \{ Some\(true\) \} else \{ None \} \} _ => None,", cn, "check_nx_domain decision")
     one(r"if new_nxdomain \{ node\.update_special\( self\.zone\.new_version, Some\(Special::NxDomain\), \); \} else \{ node\.update_special\(self\.zone\.new_version, None\); \}", cn, "check_nx_domain update")
     defs.append(("nx_marker_follows_emptiness", "bool", "true"))
+    # ---- does a WriteNode check that its session is still the live one?
+    one(r"new_version: self\.new_version,", cl, "WriteZone::clone keeps the version of the handle")
+    n_guard = len(re.findall(r"\bfn writable\b", wn))
+    n_calls = len(re.findall(r"let _writable = self\.writable\(\)\?;", wn))
+    if n_guard == 0 and n_calls == 0:
+        defs.append(("stale_handle_rejected", "bool", "false"))
+    elif n_guard == 1 and n_calls == 7:
+        one(r"if \*guard == Some\(self\.zone\.new_version\) \{ Ok\(guard\) \} else \{ Err\(", flat(fn_body(wn, "writable")), "WriteNode::writable compares with the live version")
+        one(r"\*self\.writable_version\.write\(\) = None;", pb, "publish retires the handles")
+        one(r"if self\._lock\.is_some\(\) \{ \*self\.writable_version\.write\(\) = None; \}", dr, "drop retires the handles")
+        one(r"\*self\.writable_version\.write\(\) = Some\(self\.new_version\);", op, "open enables the handles")
+        defs.append(("stale_handle_rejected", "bool", "true"))
+    else:
+        raise GenError("WriteNode::writable guard: %d definitions, %d call sites (expected 0/0 or 1/7)" % (n_guard, n_calls))
+
     # ---- node existence is derived from versioned data (nodes.rs ZoneNode::exists, read.rs)
     ex = flat(fn_body(zn, "exists"))
     m = one(r"^(!?)self\.rrsets\.is_empty\(version\) \|\| self\.with_special\(version, \|special\| \{ matches!\( special, Some\(Special::Cut\(_\)\) \| Some\(Special::Cname\(_\)\) \) \}\) \|\| self\.children\.any_exists\(version\)$", ex, "ZoneNode::exists")
@@ -135,6 +150,7 @@ def build():
         raise GenError("ZoneNode::exists no longer tests !rrsets.is_empty(version)")
     defs.append(("exists_counts_rrsets", "bool", "true"))
     defs.append(("exists_counts_cname", "bool", "true"))
+    defs.append(("exists_counts_children", "bool", "true"))
     one(r"^self\.children \.read\(\) \.values\(\) \.any\(\|item\| item\.exists\(version\)\)$", flat(fn_body(nc, "any_exists")), "NodeChildren::any_exists")
     ie = flat(fn_body(nr, "is_empty"))
     one(r"^let rrsets = self\.rrsets\.read\(\); if rrsets\.is_empty\(\) \{ return true; \} for value in rrsets\.values\(\) \{ if value\.get\(version\)\.is_some\(\) \{ return false; \} \} true$", ie, "NodeRrsets::is_empty")
@@ -147,6 +163,20 @@ def build():
     hb = flat(fn_body(rz, "query_node_here_but_not_below"))
     one(r"Some\(Special::Cname\(cname\)\) => NodeAnswer::cname\(cname\.clone\(\)\), Some\(Special::NxDomain\) \| None => \{ self\.query_rrsets\(node\.rrsets\(\), qtype, walk\) \}", hb, "query_node_here_but_not_below arms")
     defs.append(("nx_marker_answers_like_regular", "bool", "true"))
+    hab = flat(fn_body(rz, "query_node_here_and_below"))
+    one(r"Some\(Special::Cut\(cut\)\) => \{ if walk\.enabled\(\) \{ walk\.op\(&cut\.ns, true\); if let Some\(ds\) = &cut\.ds \{ walk\.op\(ds, true\); \} for glue_rec in &cut\.glue \{ walk\.op_glue_rec\(glue_rec\); \} NodeAnswer::no_data\(\) \} else \{ NodeAnswer::authority\(", hab, "here_and_below: a cut ends the descent (walk: NS, DS, glue; query: referral)")
+    one(r"Some\(Special::Cname\(cname\)\) => \{ if walk\.enabled\(\) \{ .*? walk\.op\(&SharedRrset::new\(rrset\), false\); \} self\.query_children\( node\.children\(\), label, qname, qtype, walk, \) \}", hab, "here_and_below: CNAME is emitted by walk and the children are visited")
+    one(r"Some\(Special::NxDomain\) \| None => self\.query_children\( node\.children\(\), label, qname, qtype, walk, \),", hab, "here_and_below: marker/regular nodes descend")
+    qn = flat(fn_body(rz, "query_node"))
+    one(r"^if walk\.enabled\(\) \{ self\.query_rrsets\(node\.rrsets\(\), qtype, walk\.clone\(\)\); self\.query_node_here_and_below\( node, Label::root\(\), qname, qtype, walk, \) \} else if let Some\(label\) = qname\.next\(\) \{ self\.query_node_here_and_below\(node, label, qname, qtype, walk\) \} else \{ self\.query_node_here_but_not_below\(node, qtype, walk\) \}$", qn, "query_node dispatch")
+    qac = flat(fn_body(rz, "query_at_cut"))
+    one(r"^match qtype \{ Rtype::DS => \{ if let Some\(rrset\) = cut\.ds\.as_ref\(\) \{ NodeAnswer::data\(rrset\.clone\(\)\) \} else \{ NodeAnswer::no_data\(\) \} \} _ => NodeAnswer::authority\(", qac, "query_at_cut")
+    one(r"Some\(Special::Cut\(cut\)\) => self\.query_at_cut\(cut, qtype\),", hb, "here_but_not_below: cut")
+    one(r"else if qtype == Rtype::ANY \{ let guard = rrsets\.iter\(\); guard \.iter\(\) \.find_map\(\|\(_rtype, rrset\)\| rrset\.get\(self\.version\)\) \.map\(\|rrset\| NodeAnswer::data\(rrset\.clone\(\)\)\) \.unwrap_or_else\(NodeAnswer::no_data\) \}", flat(fn_body(rz, "query_rrsets")), "ANY answers with some RRset of the version")
+    mzc = flat(fn_body(wn, "make_zone_cut"))
+    one(r"node\.update_special\( self\.zone\.new_version, Some\(Special::Cut\(cut\)\), \);", mzc, "make_zone_cut writes at new_version")
+    mcn = flat(fn_body(wn, "make_cname"))
+    one(r"node\.update_special\( self\.zone\.new_version, Some\(Special::Cname\(cname\)\), \);", mcn, "make_cname writes at new_version")
     rd2 = flat(fn_body(rs, "query", after="impl ReadableZone for ReadZone"))
     one(r"self\.query_below_apex\(label, qname, qtype, WalkState::DISABLED\) \} else \{ self\.query_rrsets\(self\.apex\.rrsets\(\), qtype, WalkState::DISABLED\) \}", rd2, "ReadZone::query dispatch")
     qr = flat(fn_body(rz, "query_rrsets"))
